@@ -360,7 +360,55 @@ func VerifC19_Any() {
 			}
 		}
 	}
+	if shape >= 4 && shape <= 8 {
+		// integer-keyed maps come back keyed by the integer the bytes encode (sign included)
+		m, ok := back.(map[int]interface{})
+		vrt.Assert(ok && len(m) == 1, "C19.any.read.intkey.shape")
+		if ok {
+			for k, v := range m {
+				vs, isS := v.(string)
+				if shape == 5 {
+					// byte keys: the reader has two byte representations (int8 / uint8); either is accepted
+					vrt.Assert(k == int(kv) || k == int(uint8(kv)), "C19.any.read.intkey.byte-key")
+				} else {
+					vrt.Assert(k == int(kv), "C19.any.read.intkey.key")
+				}
+				vrt.Assert(isS && vs == string(sv), "C19.any.read.intkey.value")
+			}
+		}
+	}
 	w := BinaryProtocol{Buf: make([]byte, 0, 8)}
 	err = w.WriteAnyWithDesc(desc, back, false, true, useName)
 	vrt.Assert(err == nil && vrt.BytesEq(w.Buf, 0, len(w.Buf), want, 0, len(want)), "C19.any.read-write.identity")
+}
+
+func init() { vrt.Register("VerifC19_Reuse", VerifC19_Reuse) }
+
+// VerifC19_Reuse: one protocol object used for write + read, then Reset / Recycle and used again: the second
+// round reads exactly what the second round wrote (the read position is part of what Reset clears).
+func VerifC19_Reuse() {
+	how := vrt.Param("HOW") // 0 Reset, 1 Recycle + NewBinaryProtocolBuffer
+	a, b := int64(vrt.U64()), int32(vrt.U32())
+	s1, s2 := vrt.Bytes(vrt.Param("L1")), vrt.Bytes(vrt.Param("L2"))
+	p := NewBinaryProtocolBuffer()
+	vrt.Assert(p.WriteI64(a) == nil && p.WriteString(string(s1)) == nil, "C19.reuse.first.write")
+	x, err := p.ReadI64()
+	vrt.Assert(err == nil && x == a, "C19.reuse.first.read-i64")
+	y, err := p.ReadString(true)
+	vrt.Assert(err == nil && y == string(s1) && p.Left() == 0, "C19.reuse.first.read-string")
+	if how == 0 {
+		p.Reset()
+	} else {
+		p.Recycle()
+		p = NewBinaryProtocolBuffer()
+	}
+	vrt.Assert(p.Read == 0 && len(p.Buf) == 0, "C19.reuse.reset.empty")
+	vrt.Assert(p.WriteString(string(s2)) == nil && p.WriteI32(b) == nil, "C19.reuse.second.write")
+	vrt.Assert(p.Left() == len(s2)+8, "C19.reuse.second.left")
+	z, err := p.ReadString(true)
+	vrt.Assert(err == nil && z == string(s2), "C19.reuse.second.read-string")
+	w, err := p.ReadI32()
+	vrt.Assert(err == nil && w == b && p.Left() == 0, "C19.reuse.second.read-i32")
+	vrt.Reach("reused")
+	p.Recycle()
 }
